@@ -568,6 +568,73 @@ example : liveTasks (run exCfg exState [.pdoStart 7 1 (some 1000), .syncStart (s
     liveTasks (step exCfg (run exCfg exState [.pdoStart 7 1 (some 1000), .syncStart (some 5000)])
       .disconnect).1 = [1] := by decide
 
+/-! ## T exit_is_disconnect, disconnect_stops_all -/
+
+/-- the calls by which a network gets disconnected: `disconnect()` and every way of leaving it as a
+    context manager -/
+def disconnects : Op → Bool
+  | .disconnect => true
+  | .exitWith _ => true
+  | _ => false
+
+/-- Leaving `with network:` — normally or through an exception — and `__exit__` called directly, with or
+    without an exception triple, are `disconnect()`: same state, same (normal) return. -/
+theorem exit_is_disconnect (c : Cfg) (s : State) (w : ExitWay) :
+    exec c s (.exitWith w) = exec c s .disconnect ∧ step c s (.exitWith w) = step c s .disconnect :=
+  ⟨rfl, rfl⟩
+
+theorem step_of_disconnects (c : Cfg) (s : State) (op : Op) (h : disconnects op = true) :
+    step c s op = (disconnect c s, true) := by
+  cases op with
+  | disconnect => rfl
+  | exitWith w => rfl
+  | _ => cases h
+
+theorem disconnect_slot_none (hi : Inv c s) (n k : Nat) : (disconnect c s).slots (.pdo n k) = none := by
+  unfold disconnect
+  show (stopAll s c.pdos).slots (.pdo n k) = none
+  by_cases hm : (n, k) ∈ c.pdos
+  · exact stopAll_slot_none _ _ hm
+  · apply stopAll_slot_of_none
+    cases hs : s.slots (.pdo n k) with
+    | none => rfl
+    | some t =>
+      have := hi.slotValid _ t hs
+      simp only [Cfg.valid, List.contains_iff_mem] at this
+      exact absurd this hm
+
+/-- **Every way of disconnecting stops all PDO tasks.**  After any history, `disconnect()`, the end of a
+    `with network:` block (normal or by exception) and a direct `__exit__` (with or without exception
+    triple) each return normally and leave no PDO task of any map of any node running and every map's
+    task handle cleared; no task is created, the network is disconnected, the handles of the other
+    producers are as they were.  (Twice in a row: the second call is covered as well — `ops` is any
+    history.) -/
+theorem disconnect_stops_all (c : Cfg) (s0 : State) (h0 : Fresh s0) (ops : List Op) (op : Op)
+    (hd : disconnects op = true) :
+    let s := run c s0 ops
+    let s' := (step c s op).1
+    (step c s op).2 = true ∧
+    (∀ n k, liveOwned s' (.pdo n k) = [] ∧ s'.slots (.pdo n k) = none) ∧
+    s'.bus.n = s.bus.n ∧ s'.connected = false ∧
+    (∀ o, (∀ n k, o ≠ .pdo n k) → s'.slots o = s.slots o) := by
+  intro s s'
+  have hi : Inv c s := inv_run h0.inv ops
+  have hs' : s' = disconnect c s := by simp only [s', step_of_disconnects c s op hd]
+  have hi' : Inv c (disconnect c s) := inv_disconnect hi
+  rw [step_of_disconnects c s op hd, hs']
+  refine ⟨rfl, fun n k => ?_, ?_, rfl, ?_⟩
+  · have hn := disconnect_slot_none hi n k
+    exact ⟨liveOwned_nil_iff.2 (hi'.noLive_of_none hn), hn⟩
+  · unfold disconnect; exact stopAll_bus_n _ _
+  · intro o ho; unfold disconnect; exact stopAll_slot_other ho _ _
+
+/-- `connect()` gives the network a bus again and touches nothing else -/
+theorem connect_connects (c : Cfg) (s : State) :
+    (step c s .connect).2 = true ∧ (step c s .connect).1.connected = true ∧
+    (step c s .connect).1.bus = s.bus ∧ (step c s .connect).1.slots = s.slots ∧
+    (step c s .connect).1.pdo = s.pdo ∧ (step c s .connect).1.syncPeriod = s.syncPeriod :=
+  ⟨rfl, rfl, rfl, rfl, rfl, rfl⟩
+
 /-! ## T restart_without_period, start_without_period_refused -/
 
 /-- `start()` without a period, for the producers whose `start` takes an optional one -/
@@ -797,6 +864,48 @@ example :
       .pdoStart 7 1 none]) = [0] ∧
     ((run exCfg exState [.pdoReceive 7 1 100 [1, 2], .pdoReceive 7 1 250 [3, 4],
       .pdoStart 7 1 none]).bus.task 0).period = 250 := by decide
+
+/-! ## T restart_after_reconnect -/
+
+/-- **Starts after `connect()` again.**  A producer that was given a period `v > 0` at any time, then —
+    after anything that does not write its period — lost its network by any way of disconnecting, is
+    restarted by `start()` without argument once `connect()` has been called again: exactly one task of
+    this producer runs, with its COB-ID, current payload and the period `v`. -/
+theorem restart_after_reconnect (c : Cfg) (s0 : State) (h0 : Fresh s0) (pre mid : List Op) (g dop rop : Op)
+    (o : Owner) (v id : Nat) (hr : restartOp o = some rop) (hg : gives g = some (o, v)) (hv : 0 < v)
+    (hval : c.valid o = true) (hmid : ∀ op ∈ mid, touches o op = false) (hd : disconnects dop = true) :
+    let s := run c s0 (pre ++ g :: (mid ++ [dop, .connect]))
+    cobOf c s o = some id →
+    (step c s rop).2 = true ∧ liveOwned (step c s rop).1 o = [s.bus.n] ∧
+    (step c s rop).1.bus.task s.bus.n = ⟨id, dataOf s o, false, v, o, true⟩ := by
+  intro s hid
+  have hmid' : ∀ op ∈ mid ++ [dop, .connect], touches o op = false := by
+    intro op hm
+    rcases List.mem_append.1 hm with hm | hm
+    · exact hmid op hm
+    · simp only [List.mem_cons, List.mem_nil_iff, or_false] at hm
+      rcases hm with rfl | rfl
+      · cases op with
+        | disconnect => rfl
+        | exitWith w => rfl
+        | _ => cases hd
+      · rfl
+  have hc : s.connected = true := by
+    have : s = (step c (run c s0 (pre ++ g :: (mid ++ [dop]))) .connect).1 := by
+      simp only [s, run_append, run]
+    rw [this]; rfl
+  exact restart_without_period c s0 h0 pre (mid ++ [dop, .connect]) g rop o v id hr hg hv hval hmid' hc hid
+
+/-- non-vacuity: two maps' worth of producers running, the block left through an exception, a second
+    disconnect, connect again, restart without period -/
+example :
+    let h := [Op.pdoStart 7 1 (some 1000), .syncStart (some 5000), .exitWith .withException]
+    liveTasks (run exCfg exState [.pdoStart 7 1 (some 1000), .syncStart (some 5000)]) = [0, 1] ∧
+    liveTasks (run exCfg exState h) = [1] ∧ (run exCfg exState h).slots (.pdo 7 1) = none ∧
+    liveTasks (run exCfg exState (h ++ [.disconnect])) = [1] ∧
+    (step exCfg (run exCfg exState (h ++ [.disconnect])) (.pdoStart 7 1 none)).2 = false ∧
+    (step exCfg (run exCfg exState (h ++ [.disconnect, .connect])) (.pdoStart 7 1 none)).2 = true ∧
+    liveTasks (run exCfg exState (h ++ [.disconnect, .connect, .pdoStart 7 1 none])) = [1, 2] := by decide
 
 /-! ## small facts -/
 
